@@ -6,7 +6,9 @@ budgets, every cyclic budget sequence over {1,2,3} up to a length bound, seeded 
 host replies delayed by d further calls) must produce the same printed output, final value and
 runtime error text (kind, location and traceback).
 Part B: deterministic channel networks (one writer and one reader per channel, one printing
-task) must print the same text under every slicing."""
+task) must print the same text under every slicing; so must races between producers that
+never read anything and write to one shared channel (their relative progress is fixed by the
+round-robin of one instruction per runnable task, whatever the main program is waiting for)."""
 import itertools
 
 import vlib
@@ -134,11 +136,17 @@ def run(ctx):
         jid = "n%05d" % i
         jobs.append({"id": jid, "files": {"main.abra": net["src"]}, "run_gen": fam(i, ctx.quick, max_steps=1500000, net=True)})
         meta[jid] = ("net:%s" % vlib.hhex(net["src"])[:10], net["src"], False)
+    # part B2: races between pure producers on one shared channel (arrival order fixed by the round-robin)
+    races = [concgen.gen_race_network(vlib.Rng(ctx.seed * 41 + 77).fork(i)) for i in range(300 if ctx.quick else 5000)]
+    for i, rn in enumerate(races):
+        jid = "q%05d" % i
+        jobs.append({"id": jid, "files": {"main.abra": rn["src"]}, "run_gen": fam(i, ctx.quick, max_steps=1500000, net=True)})
+        meta[jid] = ("race:%s" % vlib.hhex(rn["src"])[:10], rn["src"], False)
     results = ctx.run(jobs)
     evals = 0
     distinct = set()
     scheds = 0
-    kinds = {"taskfree": 0, "network": 0}
+    kinds = {"taskfree": 0, "network": 0, "race": 0}
     err_programs = 0
     hostcalls = 0
     net_ref_mismatch = 0
@@ -153,7 +161,7 @@ def run(ctx):
         evals += g["variants"] + 1
         scheds += g["distinct_schedules"]
         distinct.add(name)
-        kinds["taskfree" if taskfree else "network"] += 1
+        kinds["taskfree" if taskfree else ("race" if name.startswith("race:") else "network")] += 1
         if g["ref"].get("status") == "error":
             err_programs += 1
         hostcalls += g["ref"].get("host_calls", 0)
